@@ -12,3 +12,4 @@ open Pandora.C18
 #print axioms run_reads_initialised
 #print axioms callback_effects_initialised
 #print axioms shared_schema_keys_uniform
+#print axioms process_state_is_the_plugin_registries
